@@ -27,7 +27,7 @@ def core_schema(mutation=True, subscription=True):
         union("Outcome", ["User", "http_error"]),
         # ... and input fields whose names are Rust keywords (their Rust field is escaped, the key on the wire is not)
         inp("search_input", [("order", "sort_order"), ("term", "String"), ("at", "date_time"), ("type", "String"), ("in", "[Int!]"),
-                             ("where", "Range"), FieldDef("limit", "Int!", default="10"), FieldDef("modes", "[sort_order!]!", default="[ASC]")]),
+                             ("where", "Range"), ("maxAge", "Int"), ("sort_by", "String"), FieldDef("limit", "Int!", default="10"), FieldDef("modes", "[sort_order!]!", default="[ASC]")]),
         obj("Q", [("me", "User!"), ("node", "Node"), ("nodes", "[Node!]!"), ("named", "Named"), ("thing", "Thing"),
                   ("things", "[Thing]!"), ("pet", "Pet"),
                   FieldDef("user", "User", args=[("id", "ID!")]),
